@@ -40,3 +40,143 @@ Proof.
   destruct Hf as [<-|[]]. simpl in Hx.
   destruct Hx as [<-|[<-|[<-|[<-|[]]]]]; nia.
 Qed.
+
+(* ------------------------------------------------------------------ blocks of a flat_map *)
+Lemma flat_map_nth_block {A B} (f : A -> list B) (k : nat) :
+  (forall a, length (f a) = k) ->
+  forall l i j a, nth_error l i = Some a -> (j < k)%nat ->
+  nth_error (flat_map f l) (i * k + j) = nth_error (f a) j.
+Proof.
+  intros Hk. induction l as [|a0 l IH]; intros i j a Hi Hj; [destruct i; discriminate|].
+  destruct i as [|i]; simpl in Hi.
+  - inversion Hi; subst. simpl. apply nth_error_app1. rewrite Hk. lia.
+  - cbn [flat_map]. rewrite nth_error_app2 by (rewrite Hk; lia). rewrite Hk.
+    replace (S i * k + j - k)%nat with (i * k + j)%nat by lia. now apply IH.
+Qed.
+
+Lemma zrange_nth_error n i : (0 <= i < n) -> nth_error (zrange n) (Z.to_nat i) = Some i.
+Proof.
+  intros H. unfold zrange. erewrite map_nth_error; [|apply nth_error_nth' with (d := 0%nat); rewrite seq_length; lia].
+  rewrite seq_nth by lia. f_equal. lia.
+Qed.
+
+Lemma flat_map_single {A B} (f : A -> B) l : flat_map (fun a => [f a]) l = map f l.
+Proof. induction l; simpl; congruence. Qed.
+
+(* the vertex created at position i*n2 + j is the sample (U[i], V[j]) *)
+Lemma surface_vertex_at n1 n2 i j : 0 <= i < n1 -> 0 <= j < n2 ->
+  nth_error (surface_vertex_params n1 n2) (Z.to_nat (i * n2 + j)) = Some (i, j).
+Proof.
+  intros Hi Hj. unfold surface_vertex_params.
+  replace (Z.to_nat (i * n2 + j)) with (Z.to_nat i * Z.to_nat n2 + Z.to_nat j)%nat by nia.
+  rewrite (flat_map_nth_block _ (Z.to_nat n2)) with (a := i).
+  - rewrite flat_map_single. erewrite map_nth_error; [reflexivity | now apply zrange_nth_error].
+  - intros a. rewrite flat_map_single, map_length. apply zrange_length.
+  - now apply zrange_nth_error.
+  - lia.
+Qed.
+
+Lemma surface_uv_is_vertex_order n1 n2 : surface_uv_params n1 n2 = surface_vertex_params n1 n2.
+Proof. reflexivity. Qed.
+
+(* face number i*(n2-1) + j is the cell (i, j) *)
+Definition cell_corners (n2 i j : Z) : list Z := [i * n2 + j; i * n2 + (j + 1); (i + 1) * n2 + (j + 1); (i + 1) * n2 + j].
+
+Lemma surface_face_at n1 n2 i j : 0 <= i < n1 - 1 -> 0 <= j < n2 - 1 ->
+  nth_error (surface_faces n1 n2) (Z.to_nat (i * (n2 - 1) + j)) = Some (cell_corners n2 i j).
+Proof.
+  intros Hi Hj. unfold surface_faces.
+  replace (Z.to_nat (i * (n2 - 1) + j)) with (Z.to_nat i * Z.to_nat (n2 - 1) + Z.to_nat j)%nat by nia.
+  rewrite (flat_map_nth_block _ (Z.to_nat (n2 - 1))) with (a := i).
+  - rewrite flat_map_single. erewrite map_nth_error; [|now apply zrange_nth_error].
+    unfold cell_corners. f_equal. repeat (f_equal; try lia).
+  - intros a. rewrite flat_map_single, map_length. apply zrange_length.
+  - now apply zrange_nth_error.
+  - lia.
+Qed.
+
+(* grid consistency: every face joins, in order, the samples (i,j) (i,j+1) (i+1,j+1) (i+1,j) of ONE cell,
+   for all n1, n2 (equal or not) *)
+Definition vertex_sample n1 n2 (x : Z) : option (Z * Z) :=
+  if x <? 0 then None else nth_error (surface_vertex_params n1 n2) (Z.to_nat x).
+
+Lemma surface_faces_grid_consistent n1 n2 f : In f (surface_faces n1 n2) ->
+  exists i j a b c d, 0 <= i < n1 - 1 /\ 0 <= j < n2 - 1 /\ f = [a; b; c; d]
+    /\ vertex_sample n1 n2 a = Some (i, j) /\ vertex_sample n1 n2 b = Some (i, j + 1)
+    /\ vertex_sample n1 n2 c = Some (i + 1, j + 1) /\ vertex_sample n1 n2 d = Some (i + 1, j).
+Proof.
+  unfold surface_faces. intros Hf.
+  apply in_flat_map in Hf as [i [Hi Hf]]. apply in_flat_map in Hf as [j [Hj Hf]].
+  apply In_zrange in Hi. apply In_zrange in Hj. destruct Hf as [<-|[]].
+  exists i, j. do 4 eexists. split; [lia|]. split; [lia|]. split; [reflexivity|].
+  unfold vertex_sample.
+  assert (E1 : i * n2 + j + 1 = i * n2 + (j + 1)) by lia.
+  assert (E2 : (i + 1) * n2 + j + 1 = (i + 1) * n2 + (j + 1)) by lia.
+  rewrite E1, E2.
+  repeat split.
+  - destruct (i * n2 + j <? 0) eqn:E; [nia|]. apply surface_vertex_at; lia.
+  - destruct (i * n2 + (j + 1) <? 0) eqn:E; [nia|]. apply surface_vertex_at; lia.
+  - destruct ((i + 1) * n2 + (j + 1) <? 0) eqn:E; [nia|]. apply surface_vertex_at; lia.
+  - destruct ((i + 1) * n2 + j <? 0) eqn:E; [nia|]. apply surface_vertex_at; lia.
+Qed.
+
+(* ------------------------------------------------------------------ as_polyline edges *)
+Lemma polyline_edges_eq n_pts m : polyline_edges n_pts m = map (fun i => (i, i + 1)) (zrange (m - 1)).
+Proof. unfold polyline_edges. apply flat_map_single. Qed.
+
+(* m sampled positions -> exactly the m-1 edges (i, i+1), whatever n_pts is *)
+Lemma polyline_edges_spec n_pts m :
+  Z.of_nat (length (polyline_edges n_pts m)) = Z.max 0 (m - 1) /\
+  (forall i, 0 <= i < m - 1 -> nth_error (polyline_edges n_pts m) (Z.to_nat i) = Some (i, i + 1)) /\
+  (forall a b, In (a, b) (polyline_edges n_pts m) -> 0 <= a /\ b = a + 1 /\ b < m).
+Proof.
+  rewrite polyline_edges_eq. repeat split.
+  - rewrite map_length, zrange_length. lia.
+  - intros i Hi. erewrite map_nth_error; [reflexivity | now apply zrange_nth_error].
+  - apply in_map_iff in H as [i [E Hi]]. apply In_zrange in Hi. inversion E; subst. lia.
+  - apply in_map_iff in H as [i [E Hi]]. apply In_zrange in Hi. inversion E; subst. lia.
+  - apply in_map_iff in H as [i [E Hi]]. apply In_zrange in Hi. inversion E; subst. lia.
+Qed.
+
+(* ------------------------------------------------------------------ grid resolution round(n ** (1/d)) *)
+Lemma iroot_search_spec n d : forall fuel r0, 0 <= r0 ->
+  (forall r', 0 <= r' < r0 -> (2 * r' + 1) ^ d <= 2 ^ d * n) ->
+  (exists rs, r0 <= rs <= r0 + Z.of_nat fuel /\ 2 ^ d * n < (2 * rs + 1) ^ d) ->
+  let r := iroot_search fuel n d r0 in
+  r0 <= r /\ 2 ^ d * n < (2 * r + 1) ^ d /\ forall r', 0 <= r' < r -> (2 * r' + 1) ^ d <= 2 ^ d * n.
+Proof.
+  induction fuel as [|f IH]; intros r0 H0 Hlow [rs [Hrs Hhit]]; cbn [iroot_search].
+  - assert (rs = r0) by lia. subst. repeat split; auto; lia.
+  - destruct (2 ^ d * n <? (2 * r0 + 1) ^ d) eqn:E.
+    + apply Z.ltb_lt in E. repeat split; auto; lia.
+    + apply Z.ltb_ge in E. destruct (IH (r0 + 1)) as [H1 [H2 H3]]; [lia| | |].
+      * intros r' Hr'. destruct (Z.eq_dec r' r0) as [->|Hne]; [exact E | apply Hlow; lia].
+      * exists rs. split; [|exact Hhit]. assert (rs <> r0) by (intro; subst; lia). lia.
+      * repeat split; auto; lia.
+Qed.
+
+Lemma iroot_bound n d : 0 <= n -> 1 <= d -> 2 ^ d * n < (2 * n + 1) ^ d.
+Proof.
+  intros Hn Hd. destruct (Z.eq_dec n 0) as [->|Hne].
+  - rewrite Z.mul_0_r. simpl. rewrite Z.pow_1_l by lia. lia.
+  - apply Z.le_lt_trans with ((2 * n) ^ d).
+    + rewrite Z.pow_mul_l. apply Z.mul_le_mono_nonneg_l; [apply Z.pow_nonneg; lia|].
+      rewrite <- (Z.pow_1_r n) at 1. apply Z.pow_le_mono_r; lia.
+    + apply Z.pow_lt_mono_l; lia.
+Qed.
+
+(* r = round(n ** (1/d)) is the integer nearest to the real d-th root: (r - 1/2)^d <= n < (r + 1/2)^d *)
+Lemma iroot_round_spec n d : 0 <= n -> 1 <= d ->
+  let r := iroot_round n d in
+  0 <= r /\ 2 ^ d * n < (2 * r + 1) ^ d /\ (1 <= r -> (2 * r - 1) ^ d <= 2 ^ d * n) /\ (r = 0 <-> n = 0).
+Proof.
+  intros Hn Hd r. unfold r, iroot_round.
+  destruct (iroot_search_spec n d (Z.to_nat n) 0) as [H1 [H2 H3]]; [lia | intros; lia | |].
+  - exists n. split; [lia|]. now apply iroot_bound.
+  - set (q := iroot_search (Z.to_nat n) n d 0) in *. repeat split; auto.
+    + intros Hq. specialize (H3 (q - 1)). replace (2 * (q - 1) + 1) with (2 * q - 1) in H3 by lia. apply H3. lia.
+    + intros Hq. rewrite Hq in H2. simpl in H2. rewrite Z.pow_1_l in H2 by lia.
+      assert (0 < 2 ^ d) by (apply Z.pow_pos_nonneg; lia). nia.
+    + intros ->. destruct (Z.eq_dec q 0) as [|Hne]; [assumption|]. exfalso.
+      specialize (H3 0). rewrite Z.mul_0_r in H3. simpl in H3. rewrite Z.pow_1_l in H3 by lia. lia.
+Qed.
